@@ -1156,18 +1156,18 @@ func c05Levels(tier string) []core.Level {
 					emit(core.Case{Fam: "term", N: []int{2, u, 0, i}})
 				}
 				emit(core.Case{Fam: "term", N: []int{4, 0, i}})
-				emit(core.Case{Fam: "term", N: []int{7, 6, 0, i}})                // {k: x}.k
-				emit(core.Case{Fam: "term", N: []int{16, 15, 0, i}})              // {(kn): x, (kn ~ '2'): 'second'}.dyn - the key is the variable's value
-				emit(core.Case{Fam: "term", N: []int{17, 15, 0, i}})              // ....dyn2
-				emit(core.Case{Fam: "term", N: []int{9, 1, 15, 0, i}})            // r({(kn): x, ..}): the callback receives the hash with the evaluated keys
-				emit(core.Case{Fam: "term", N: []int{8, 6, 0, i, 0, 18}})         // {k: x}['k'] via 'k'? operand 18 = 'a'.. uses key a: missing
-				emit(core.Case{Fam: "term", N: []int{8, 4, 0, i, 0, 0}})          // [x][0]
-				emit(core.Case{Fam: "term", N: []int{14, 4, 0, i}})               // [x].0
-				emit(core.Case{Fam: "term", N: []int{8, 5, 0, i, 0, 2, 0, 2}})    // [x, 1][1]
-				emit(core.Case{Fam: "term", N: []int{8, 0, i, 0, 0}})             // x[0]
+				emit(core.Case{Fam: "term", N: []int{7, 6, 0, i}})             // {k: x}.k
+				emit(core.Case{Fam: "term", N: []int{16, 15, 0, i}})           // {(kn): x, (kn ~ '2'): 'second'}.dyn - the key is the variable's value
+				emit(core.Case{Fam: "term", N: []int{17, 15, 0, i}})           // ....dyn2
+				emit(core.Case{Fam: "term", N: []int{9, 1, 15, 0, i}})         // r({(kn): x, ..}): the callback receives the hash with the evaluated keys
+				emit(core.Case{Fam: "term", N: []int{8, 6, 0, i, 0, 18}})      // {k: x}['k'] via 'k'? operand 18 = 'a'.. uses key a: missing
+				emit(core.Case{Fam: "term", N: []int{8, 4, 0, i, 0, 0}})       // [x][0]
+				emit(core.Case{Fam: "term", N: []int{14, 4, 0, i}})            // [x].0
+				emit(core.Case{Fam: "term", N: []int{8, 5, 0, i, 0, 2, 0, 2}}) // [x, 1][1]
+				emit(core.Case{Fam: "term", N: []int{8, 0, i, 0, 0}})          // x[0]
 				for j := 0; j < nOps; j++ {
-					emit(core.Case{Fam: "term", N: []int{8, 0, i, 0, j}})             // x[y]: every operand as the subscript (true / false / integral floats select 1 / 0 / that element)
-					emit(core.Case{Fam: "term", N: []int{8, 5, 0, i, 0, 2, 0, j}})    // [x, 1][y]
+					emit(core.Case{Fam: "term", N: []int{8, 0, i, 0, j}})          // x[y]: every operand as the subscript (true / false / integral floats select 1 / 0 / that element)
+					emit(core.Case{Fam: "term", N: []int{8, 5, 0, i, 0, 2, 0, j}}) // [x, 1][y]
 				}
 				emit(core.Case{Fam: "term", N: []int{7, 0, i}})                   // x.k
 				emit(core.Case{Fam: "term", N: []int{13, 3, 0, 18, 0, i, 0, 22}}) // "a#{x}b"
